@@ -72,7 +72,9 @@ class Axis:
     @property
     def is_defined(self) -> bool:
         """Returns True if this axis's counts and gradings are defined"""
-        return self.wires.is_defined
+        # wires can get their gradings from coincident wires alone; until this axis
+        # also holds chops it has nothing to hand over to its neighbours
+        return self.wires.is_defined and len(self.wires.chops) > 0
 
     def copy_grading(self) -> bool:
         """Attempts to copy grading from one of the neighbours;
